@@ -220,7 +220,7 @@ DEP_FILE = {"name": "dep/dep.proto", "package": "dep", "goPackage": "dpkg", "enu
 
 
 case = {
-    "request": {"deps": [DEP_FILE], "file": {"name": "api/v1/x.proto", "package": "tpkg", "packageComment": " This package holds every shape\n",
+    "request": {"deps": [DEP_FILE], "file": {"name": "api/v1/x.proto", "package": "tpkg", "packageComment": " This package holds every shape of the\n package tpkg\n",
                                      "enums": [{"name": "EnumOne", "values": [0, 1, 2, -1, 2147483647]}, {"name": "EnumTwo", "values": [0, 5]}],
                                      "messages": msgs}},
     "yaml": {
